@@ -1,9 +1,9 @@
 package main
 
 import (
+	"bytes"
 	"crypto/tls"
 	"crypto/x509"
-	"bytes"
 	"encoding/binary"
 	"encoding/json"
 	"fmt"
